@@ -259,3 +259,15 @@ pub fn ms(s: u64) -> u64 {
 pub fn conn_domain_ok(sc: &ConnScenario) -> bool {
     sc.cap_ns >= secs(60) && sc.cfg.client_addr.parse::<SocketAddr>().is_ok()
 }
+
+/// Net-sim scenarios outside every check's domain (the shrinker may propose them).
+pub fn net_domain_ok(sc: &crate::net::NetScenario) -> bool {
+    sc.cfg.limiter.is_none_or(|(d, l)| d >= 1_000_000 && l >= 1)
+        && sc.cfg.timeout_ns >= 1_000_000_000
+        && sc.clients.iter().all(|c| c.peer.parse::<SocketAddr>().is_ok())
+        && {
+            let mut peers: Vec<&String> = sc.clients.iter().map(|c| &c.peer).collect();
+            peers.sort();
+            peers.windows(2).all(|w| w[0] != w[1])
+        }
+}
